@@ -220,6 +220,7 @@ func C11(c *Ctx) error {
 		"value differences owned by C02 (URL-bound fields reset by a body) and C04 (flatten child / flattened oneof variant lost on decode) are not re-reported: URL-bound fields are cleared before comparing, flatten / flattened-oneof values are delegated to the C04 entries while those are listed open",
 		"liveness (panic, hang, 5xx, process death) is observed, not proved: every op runs under recover and a time limit in the runner")
 	r := gen.New(c.Seed)
+	c11LateBudget.Store(int64(c.N(5, 15)))
 
 	// ---- schemas ----
 	nZoo, nRt, nAnn := c.N(2, 5), c.N(2, 5), c.N(3, 10)
